@@ -289,7 +289,16 @@ func genQuery(r *Rng, t *TableDef, u *Universe, o QGenOpts) *QSpec {
 			q.GroupBy = append(q.GroupBy, PickOne(r, []string{"CROSSTAB(da)", "CROSSTABT(da)", "CROSSTAB(da, db)"}))
 		}
 		if r.Bool(0.06) && !o.NoPeriod {
-			q.GroupBy = append(q.GroupBy, "stride("+durSQL(res*time.Duration(PickOne(r, []int{2, 4})))+")")
+			sk := PickOne(r, []int{2, 4})
+			if r.Bool(0.5) {
+				// the period that equals the stride keeps every stride whole
+				for gi, g := range q.GroupBy {
+					if strings.HasPrefix(g, "period(") {
+						q.GroupBy[gi] = "period(" + durSQL(res*time.Duration(sk)) + ")"
+					}
+				}
+			}
+			q.GroupBy = append(q.GroupBy, "stride("+durSQL(res*time.Duration(sk))+")")
 		}
 	}
 	names := selNames(q.Sel, t)
